@@ -88,9 +88,52 @@ def field_deps(s, f):
     return out
 
 
+def hostile_literal(rng):
+    """Integer literal at or one step beyond a 2^k boundary, in any accepted spelling."""
+    k = rng.choice([3, 4, 7, 8, 15, 16, 23, 24, 31, 32, 47, 48, 63, 64])
+    v = rng.choice([2 ** k, 2 ** k - 1, 2 ** k + 1, -(2 ** k), -(2 ** k) - 1, -(2 ** k) + 1, 10 ** rng.randint(1, 25) - rng.randint(0, 1),
+                    -(10 ** rng.randint(1, 25)), 0, -1, rng.randint(-2 ** 65, 2 ** 65)])
+    form = rng.choice(["dec", "dec", "dec", "hex", "bin", "grouped", "name"])
+    sign, a = ("-" if v < 0 else ""), abs(v)
+    if form == "hex":
+        return "%s0x%x" % (sign, a)
+    if form == "bin":
+        return "%s0b%s" % (sign, bin(a)[2:])
+    if form == "grouped":
+        d = str(a)
+        return sign + "_".join(reversed([d[max(0, i - 3):i] for i in range(len(d), 0, -3)]))
+    if form == "name":
+        return rng.choice(["true", "false", "NOPE", "-", "0x", "1e5", "+1", "00017"])
+    return "%s%d" % (sign, a)
+
+
+def hostile_text(rng, s, depth=0):
+    """Text addressed at one leaf of structure `s` (by the spec, not by the generated code) carrying a boundary
+    literal: every integer, enum, array-index and nested path goes through the runtime's number parser."""
+    fs = s.all_named_fields()
+    if not fs or depth > 3:
+        return "{ }"
+    f = rng.choice(fs)
+    t = f.type
+    if f.kind == "virtual" or t is None:
+        return "{ %s: %s }" % (f.name, hostile_literal(rng))
+    if t.kind == "struct":
+        return "{ %s: %s }" % (f.name, hostile_text(rng, t.ref, depth + 1))
+    if t.kind == "array":
+        e = t.elem
+        inner = hostile_text(rng, e.ref, depth + 1) if e.kind == "struct" else hostile_literal(rng)
+        if rng.random() < 0.5:
+            return "{ %s: { [%s]: %s } }" % (f.name, rng.choice(["0", "1", hostile_literal(rng)]), inner)
+        return "{ %s: { %s } }" % (f.name, ", ".join([inner] + [hostile_literal(rng) for _ in range(rng.randint(0, 3))]
+                                                     if e.kind != "struct" else [inner]))
+    if t.kind == "enum" and rng.random() < 0.3:
+        return "{ %s: %s }" % (f.name, rng.choice(t.ref.values)[0])
+    return "{ %s: %s }" % (f.name, hostile_literal(rng))
+
+
 def module_case(arg):
     common.repo_on_path()
-    out = {"idx": arg["idx"], "viol": [], "cases": 0, "round_trips": 0, "texts_order_checked": 0, "partial_runs": 0,
+    out = {"idx": arg["idx"], "viol": [], "cases": 0, "round_trips": 0, "hostile_texts": 0, "texts_order_checked": 0, "partial_runs": 0,
            "aborts": [], "distinct": [], "built": False, "sample": None, "rejected": 0, "skip_checked": 0, "emit_checked": 0,
            "not_ok_skipped": 0}
     profile = dict(arg.get("profile") or {})
@@ -132,6 +175,14 @@ def module_case(arg):
                         data = bytes(cand)
                         break
             pl = " ".join(str(x) for x in params)
+            # hostile text input on Ok and non-Ok views alike: boundary literals aimed at real leaves (sanitizer oracle)
+            for _h in range(2):
+                hd = data if (data is not None and rng.random() < 0.7) else cppsuite.rand_buffer(rng, m, s, params)
+                cid = "t%d" % ci
+                ci += 1
+                lines.append("%s ptext %d %d %s %s %d %s" % (cid, si, len(params), pl, bytes(hd).hex() or "-", rng.randrange(nopt),
+                                                           hostile_text(rng, s).encode().hex()))
+                meta[cid] = ("ptext", si, params, bytes(hd), "hostile")
             if data is None:
                 out["not_ok_skipped"] += 1
                 # still exercise partial output and text feeding on a non-Ok view
@@ -162,6 +213,7 @@ def module_case(arg):
             out["cases"] += 1
             if opn == "ptext":
                 out["partial_runs"] += 1
+                out["hostile_texts"] += 1 if k == "hostile" else 0
                 continue
             if r.get("ok") != "1":
                 continue  # Ok() disagreement: C01's business
@@ -238,7 +290,7 @@ def run(ctx):
             ctx.extra.setdefault("compile_failures", {}).setdefault(v["compile_failed"], 0)
             ctx.extra["compile_failures"][v["compile_failed"]] += 1
         ctx.evaluations += v["cases"]
-        for k in ("round_trips", "texts_order_checked", "partial_runs", "skip_checked", "emit_checked", "not_ok_skipped"):
+        for k in ("round_trips", "hostile_texts", "texts_order_checked", "partial_runs", "skip_checked", "emit_checked", "not_ok_skipped"):
             ctx.count(k, v[k])
         for h in v["distinct"]:
             ctx.distinct.add(h)
